@@ -329,9 +329,44 @@ def discharge(pairs, path, defined, witness, timeout_s=10.0, seed=0, norm_first=
     return Verdict("unknown", "-", time.time() - t0, detail=detail, queries=queries)
 
 
+def norm_fold(cond, fixed):
+    """decide a comparison whose two sides are identical as rational functions (e.g. a residual that is identically 0)"""
+    neg = False
+    c = cond
+    while isinstance(c, T.Term) and c.op == "not":
+        neg = not neg
+        c = c.args[0]
+    if not isinstance(c, T.Term) or c.op not in ("lt", "le", "eq"):
+        return cond
+    a, b = c.args
+    if T.sort_of(a) != T.R and T.sort_of(b) != T.R:
+        return cond
+    try:
+        from .timebox import timebox
+        with timebox(5.0, NormFail("fold budget")):
+            N = Normaliser([a, b], fixed=fixed)
+            (na, da), (nb, db) = N._pair(a), N._pair(b)
+            if da == N.R.one and db == N.R.one:
+                d = N.red(na - nb)
+                if d.is_ground:
+                    v = d.coeff(1) if d != 0 else 0
+                    val = {"lt": v < 0, "le": v <= 0, "eq": v == 0}[c.op]
+                    return (not val) if neg else val
+    except NormFail:
+        pass
+    return cond
+
+
 def feasible(conds, witness, timeout_s=10.0, seed=0, n_points=200):
     """is conj(conds) satisfiable?  returns ('sat', env) | ('unsat', None) | ('unknown', None)"""
     conds = [c for c in conds if not (T.is_const(c) and c)]
+    if conds:
+        fx = path_fixed(conds[:-1])
+        last = norm_fold(conds[-1], fx)
+        if last is not conds[-1]:
+            if not last:
+                return "unsat", None, "NORM"
+            conds = conds[:-1]
     if any(T.is_const(c) and not c for c in conds):
         return "unsat", None, "CONST"
     vars_ = T.variables(conds)
